@@ -3,7 +3,7 @@ import ast
 
 from ..core import Mutant
 from .. import sched
-from ..astutil import unparse
+from ..astutil import unparse, flat
 from ..index import walk_local
 
 EXPLANATION = ("C30: fact-level sibling agreement between Doist.do and Doist.ado: exit bracketing on every outcome, "
@@ -18,7 +18,7 @@ M = sched.MOD
 def prologue(f):
     """Normalised statements before the main try."""
     out = []
-    for st in f.node.body:
+    for st in flat(f.node.body):
         if isinstance(st, ast.Try):
             break
         if isinstance(st, ast.Expr) and isinstance(st.value, ast.Constant):
